@@ -205,7 +205,7 @@ def gen_via(ctx):
                     g, [rng.choice(KINDS) for _ in range(n_out(g, nin))], malform='ragged')
     case['batches'][rng.randrange(n)][rng.randrange(nin)]['r'].append(99)
     yield case
-  # Assign with batch boundaries that differ from the incoming ones: known finding F23 (documented, few cases)
+  # Assign with batch boundaries that differ from the incoming ones: known finding F-C19-assign (documented, few cases)
   for sizes, fb, b in [((5, 1), 0, 2), ((5, 1), 4, 3), ((5, 1), 0, 6), ((2, 2, 2), 0, 3)]:
     yield make_via('assign', sizes, b, fb, 2, ['list', 'array'], 'sum', ['list'])
 
@@ -395,7 +395,7 @@ def model_obs(case, resps):
   obs = dict(out=r['out'], err=r['err'])
   if case['via'] == 'assign':
     if not assign_aligned(case):
-      return dict(skip='Assign outside the aligned domain (finding F23): the model of TreeFn._iterate does not say '
+      return dict(skip='Assign outside the aligned domain (finding F-C19-assign): the model of TreeFn._iterate does not say '
                        'how Assign pairs outputs with inputs')
     obs['ins'] = case['batches'][:len(r['out'])]
   return obs
@@ -525,7 +525,7 @@ def nontrivial(case, obs):
 
 def finding(case, what):
   if case.get('via') == 'assign' and not assign_aligned(case):
-    return 'F23'
+    return 'F-C19-assign'
   if not case.get('via') and not case['batches'] and case['ncols'] == 0 and case['target'] > 0:
     return 'F11'
   return None
